@@ -21,6 +21,9 @@ def units(tier):
     us.append(Unit(E.CatalogTooManySections))
     us.append(Unit(E.RmEltoritoDetachEntry, {'with_table': True}))
     us.append(Unit(E.RmEltoritoDetachEntry, {'with_table': False}))
+    # requested load size / segment must fit the 16-bit catalog fields: refused at the edit, image unchanged
+    from contracts import atomic as A
+    us += [Unit(A.Refused, {'sid': k}) for k in ('add_eltorito:load-size-too-big', 'add_eltorito:load-size-negative', 'add_eltorito:load-segment-too-big')]
     return us
 
 
